@@ -125,6 +125,9 @@ func (cache *HevcCache) getPalyloadType(payload []byte) (vps, sps, pps, islice b
 		off := 2
 		// 循环读取被封装的NAL
 		for {
+			if off+2 >= len(payload) { // 剩余数据不足以容纳长度字段和NAL头
+				break
+			}
 			// nal长度
 			nalSize := ((uint16(payload[off])) << 8) | uint16(payload[off+1])
 			if nalSize < 1 {
